@@ -1,10 +1,17 @@
 #!/bin/bash
 # runs every seeded mutation against its property's check (plus the cross-checks listed here)
 cd /verif
+# run from a snapshot of the committed /verif so that editing the harness meanwhile does not disturb the runs
+export VERIF_SNAP=/tmp/vsnap
+rm -rf $VERIF_SNAP; git worktree prune; git worktree add -q --detach $VERIF_SNAP HEAD || exit 2
+mkdir -p $VERIF_SNAP/.work; cp -r /verif/.work/fam $VERIF_SNAP/.work/ 2>/dev/null
+export WT_ROOT=${WT_ROOT:-/tmp/wt}
+export SEED_TAG=${SEED_TAG:-}
+export KS=${KS:-1 2}
 extra() { case "$1" in C11-2) echo C06;; C14-2) echo C06;; C08-2) echo C06;; C06-2) echo C12;; C17-2) echo "C05";; *) echo "";; esac; }
-run() { P=$1; K=$2; tools/seedtest.sh $P $K $P $(extra $P-$K) > /tmp/seedall.$P-$K.log 2>&1; echo "$P-$K $(tail -1 /tmp/seedall.$P-$K.log)"; }
+run() { P=$1; K=$2; $VERIF_SNAP/tools/seedtest.sh $P $K $P $(extra $P-$SEED_TAG$K) > /tmp/seedall.$P-$SEED_TAG$K.log 2>&1; echo "$P-$SEED_TAG$K $(tail -2 /tmp/seedall.$P-$SEED_TAG$K.log | tr "\n" " ")"; }
 export -f run extra
 # the two changes of a property share a worktree: one job per property
-both() { run $1 1; run $1 2; }
+both() { for K in $KS; do [ -d $WT_ROOT/$1/MUT/$K ] && run $1 $K; done; }
 export -f both
 for P in ${*:-C01 C02 C03 C04 C05 C06 C07 C08 C09 C10 C11 C12 C13 C14 C15 C16 C17 C18 C19 C20}; do echo "$P"; done | xargs -P 3 -L 1 bash -c 'both $0'
